@@ -164,6 +164,7 @@ KERNEL_LINKS = {
     "C12": "AbstractOnPolicyAlgorithm.iteration for N > 1 environments: environment i = a single-environment collection from its own state and key split(rollout_key, N)[i]; AbstractOffPolicyAlgorithm.reset for N > 1 = OffPolicy.off_reset (per-environment buffers of capacity buffer_size // N, keys, warm-up)",
     "C13": "every method of TimeLimit (wrapper/misc.py), of AbstractPureObservationWrapper and AbstractPureTransformRewardWrapper, the action-wrapper methods of AbstractPureTransformActionWrapper (with base-class fallback) = Env.wrap1 layers; rescale_box (wrapper/utils.py) on bounded components = rs_forward / rs_backward",
     "C14": "Discrete.contains, Box.contains, MultiDiscrete.contains in their per-component view on finite rational entries = Spaces.in_rangeb / in_boxb",
+    "C18": "the file name Serializable.serialize writes to (utils.py) = Serial.resolve_name ('.eqx' appended unless already the suffix; literal name under no_suffix; parents created)",
     "C19": "LoggingCallbackStepState.next (callback/logging/callback.py) = Logging.l_next field by field; rollout_scan (benchmark/__init__.py) with its scanned step = Logging.rollout_scan (return up to the first terminal or truncated state or the step cap); LoggingCallback.on_iteration = Logging.iter_record (sum of step counters, means of the statistics, one ordered record per backend)",
     "C20": "initial_gait_phase, advance_gait_phase, desired_foot_height (env/unitree/g1/gait.py, per-foot view) = Gait.initial_phase / advance1 / foot_height at half period PI",
 }
